@@ -31,7 +31,7 @@ for d in sorted(os.listdir(DST)):
         rows.append((d, m['property'], str(m.get('summary', '')).replace('\n', ' ').replace('|', '/')[:260], m.get('confirmed', {}).get('check_exit_when_kept')))
 with open(os.path.join(DST, 'README.md'), 'w') as f:
     f.write('# Behaviour-preserving refactorings\n\nOne patch per directory, written by sub-agents that saw only the property text; each passes the 70 pinned tests. The property\'s check must not report a violation on them: '
-            'exit 0 (verdict: holds) or exit 2 (idiom not recognised, no verdict). `selftest/run.py` replays all of them. Suffix `s` = small edits (one function, at most 6 lines), no suffix = combined refactorings of 10-40 lines.\n\n'
+            'exit 0 (verdict: holds) or exit 2 (idiom not recognised, no verdict). `selftest/run.py` replays all of them. Suffix `s` and `t` = small edits (one function, at most 6 lines; two independent sets), no suffix = combined refactorings of 10-40 lines.\n\n'
             '| patch | property | refactoring | check exit when kept |\n|---|---|---|---|\n')
     for r in rows:
         f.write('| %s | %s | %s | %s |\n' % r)
